@@ -38,7 +38,7 @@ def rows_round(prefix):
     return "\n".join(out)
 
 
-for k in (3, 4, 5, 6, 7, 8):
+for k in (3, 4, 5, 6, 7, 8, 9):
     rk = rows_round(f"R{k}")
     tp = os.path.join(V, "tools", f"design_round{k}.template.md")
     txt = open(tp).read().replace(f"@@TABLE{k}@@", rk) if rk and os.path.exists(tp) else ""
